@@ -57,6 +57,7 @@ class MultipleShooting(SamplingMethod):
         self.add_variables_V_control_finalize(stage, opti)
 
     def add_constraints(self, stage, opti):
+        self.check_refine(stage)
         if stage._constraints["integrator_roots"]:
             raise Exception("Constraints with grid='integrator_roots' are only supported by DirectCollocation.")
         # Obtain the discretised system
